@@ -113,6 +113,8 @@ def main(argv=None):
         try:
             if confirmed:
                 raise RuntimeError('already confirmed by the bounded stand-in')
+            if os.environ.get('PYVC_NO_REPLAY'):
+                raise RuntimeError('native replay disabled for this run')
             from replay import drivers
             confirmed, obs = drivers.replay(prop, name, r)
             rep['native_replay'] = obs
@@ -131,6 +133,13 @@ def main(argv=None):
         lines.append('UNDECIDED property=%s obligation=%s reason=%s' % (prop, u['obligation'], str(u['reason'])[:200]))
     for j, e in errors:
         lines.append('CHECKER-ERROR property=%s job=%s\n%s' % (prop, j, e))
+    # ---- thorough tier: conformance of the assumed contracts, regex cross-check, self-test against the seeded changes of this property
+    thorough = {}
+    if tier == 'thorough' and not os.environ.get('PYVC_SELFTEST_CHILD'):
+        from pyvc import thorough as th
+        thorough = th.run(prop, seed, jobs)
+        for e_ in thorough.get('errors', []):
+            errors.append(('thorough', e_))
     nreq = len(required)
     if nreq == 0 and not errors:
         lines.append('CHECKER-ERROR property=%s zero obligations generated' % prop)
@@ -154,6 +163,7 @@ def main(argv=None):
             'undecided': undecided[:50], 'known_findings_witnessed': list(kf_seen),
             'bounded_units': bounded, 'samples': samples or [{'note': 'no obligations'}],
             'obligation_names': sorted(names)[:400],
+            'thorough': thorough,
         },
         'assumptions': sorted(assumptions),
         'wall_s': round(time.time() - t0, 2), 'violations': nviol,
